@@ -55,6 +55,8 @@ Proof.
   induction l as [|s r IH]; cbn [map_opt forallb]; [reflexivity|]. rewrite <- IH.
   destruct (f s), (map_opt f r); reflexivity.
 Qed.
+Lemma forallb_ext' {A} (f g : A -> bool) l : (forall a, f a = g a) -> forallb f l = forallb g l.
+Proof. intros H. induction l as [|a r IH]; cbn; [reflexivity|]. now rewrite H, IH. Qed.
 Lemma is_ok_some {A} (o : option A) : is_ok (match o with Some r => Ok r | None => Err end) = is_some o.
 Proof. now destruct o. Qed.
 Lemma ar4_sid_to_eid s : is_some (sid_to_eid_str s) = ar4 s.
@@ -142,6 +144,8 @@ Theorem new_eid_flag s : is_ok (new_eid s) = negb (invalid_new_eid s).
 Proof. unfold new_eid, invalid_new_eid, wf5. destruct (parse_eid s); reflexivity. Qed.
 Theorem new_eid_rejects s : invalid_new_eid s = true -> new_eid s = Err.
 Proof. unfold new_eid, invalid_new_eid, wf5. destruct (parse_eid s); [discriminate|reflexivity]. Qed.
+Theorem new_eid_rejects_unparsed s : parse_eid s = None -> new_eid s = Err.
+Proof. intros H. apply new_eid_rejects. unfold invalid_new_eid. now rewrite (proj2 (wf5_false s) H). Qed.
 (* Reset on an object that already holds `old`: an error leaves the object unchanged *)
 Definition reset_eid (old : eid) (s : string) : eid * bool :=
   match parse_eid s with Some i => (i, false) | None => (old, true) end.
@@ -229,8 +233,8 @@ Section Vertex.
   Theorem point_on_eid_flag id opt : is_ok (point_on_eid_api m_sinh m_atan id opt) = negb (invalid_point_on_eid id opt).
   Proof.
     unfold point_on_eid_api, invalid_point_on_eid, zoom_bad, option_known. destruct (parse_eid id) as [i|]; [|reflexivity].
-    destruct (check_zoom (eh i)), (check_zoom (ev i)); cbn; try reflexivity.
-    destruct (opt =? 1) eqn:A; [now rewrite orb_true_r|]. destruct (opt =? 0); reflexivity.
+    destruct (check_zoom (eh i)); [|reflexivity]. destruct (check_zoom (ev i)); [|reflexivity]. cbn [andb negb orb].
+    destruct (opt =? 1); [now rewrite orb_true_r|]. destruct (opt =? 0); reflexivity.
   Qed.
   Theorem point_on_eid_rejects id opt : invalid_point_on_eid id opt = true -> point_on_eid_api m_sinh m_atan id opt = Err.
   Proof.
@@ -259,12 +263,12 @@ Definition invalid_e2s (l : list string) : bool := some_bad ar5 l.
 Theorem s2e_flag l : is_ok (sids_to_eids l) = negb (invalid_s2e l).
 Proof.
   unfold sids_to_eids, invalid_s2e. rewrite is_ok_some, map_opt_forallb, some_bad_forallb, negb_involutive.
-  apply forallb_ext. intros s. apply ar4_sid_to_eid.
+  apply forallb_ext'. intros s. apply ar4_sid_to_eid.
 Qed.
 Theorem e2s_flag l : is_ok (eids_to_sids l) = negb (invalid_e2s l).
 Proof.
   unfold eids_to_sids, invalid_e2s. rewrite is_ok_some, map_opt_forallb, some_bad_forallb, negb_involutive.
-  apply forallb_ext. intros s. apply ar5_eid_to_sid.
+  apply forallb_ext'. intros s. apply ar5_eid_to_sid.
 Qed.
 Lemma flag_rejects {A} (r : result A) (b : bool) : is_ok r = negb b -> b = true -> r = Err.
 Proof. intros F ->. now destruct r. Qed.
@@ -273,18 +277,510 @@ Proof. apply flag_rejects, s2e_flag. Qed.
 Theorem e2s_rejects l : invalid_e2s l = true -> eids_to_sids l = Err.
 Proof. apply flag_rejects, e2s_flag. Qed.
 
-(* ---- ConvertPointListToProjectedPointList / ConvertProjectedPointListToPointList; models Project.to_projected / to_geographic
-        (C18). Documented exclusion: an EPSG code that does not exist. The third-party transform is an oracle `tr`; that it refuses
-        every coordinate under a code it does not know is the oracle assumption of C18 (Project.unknown_epsg_partial). With an
-        empty list the loop body never runs and no error is reported: finding class unknown_epsg_empty_list of C18. ---- *)
-Definition invalid_project (nonempty : bool) (crs : Z) : bool := negb (epsg_known crs) && nonempty.
+(* ---- ConvertPointListToProjectedPointList / ConvertProjectedPointListToPointList (full models: Project.to_projected /
+        to_geographic, C18, over the third-party transform as an oracle). Documented exclusion: an EPSG code that does not exist.
+        Validation prefix (after fix e07a6eb): the code is looked up in the library's table (Project.epsg_known, wgs84 v1.1.7)
+        BEFORE the loop over the points, so an unknown code is an error for every list, the empty one included; `body` is
+        the rest of the function (C18). ---- *)
+Definition invalid_project (crs : Z) : bool := negb (epsg_known crs).
+Definition project_prefix {A} (crs : Z) (body : unit -> list A * bool) : list A * bool :=
+  if negb (epsg_known crs) then ([], true) else body tt.
 Definition nonemptyb {A} (l : list A) : bool := match l with [] => false | _ => true end.
-Theorem project_rejects (tr : Z -> Z -> float -> float -> float -> option (float * float * float)) crs :
-  (forall a b c, tr geo_crs crs a b c = None) -> (forall a b c, tr crs geo_crs a b c = None) ->
-  (forall l, invalid_project (nonemptyb l) crs = true -> snd (to_projected tr l crs) = true) /\
-  (forall l, invalid_project (nonemptyb l) crs = true -> snd (to_geographic tr l crs) = true).
+Theorem project_rejects {A} crs (body : unit -> list A * bool) : invalid_project crs = true -> project_prefix crs body = ([], true).
+Proof. unfold invalid_project, project_prefix. now intros ->. Qed.
+Theorem project_rejects_unknown {A} crs (body : unit -> list A * bool) : epsg_known crs = false -> project_prefix crs body = ([], true).
+Proof. intros H. apply project_rejects. unfold invalid_project. now rewrite H. Qed.
+Theorem project_known {A} crs (body : unit -> list A * bool) : invalid_project crs = false -> project_prefix crs body = body tt.
+Proof. unfold invalid_project, project_prefix. now intros ->. Qed.
+
+(* ===================================================================================================================== *)
+(* 3. integrate                                                                                                           *)
+(* ===================================================================================================================== *)
+(* ---- ChangeExtendedSpatialIdsZoom / ChangeSpatialIdsZoom; models ChangeZoom.change_ext_api / change_sid_api (C03) ---- *)
+Definition invalid_change_ext (ids : list string) (H V : Z) : bool := zoom_bad H || zoom_bad V || some_bad wf5 ids.
+Definition invalid_change_sid (sids : list string) (z : Z) : bool := zoom_bad z || some_bad wf4 sids.
+Theorem change_ext_flag ids H V : is_ok (change_ext_api ids H V) = negb (invalid_change_ext ids H V).
 Proof.
-  intros H1 H2. destruct (unknown_epsg_partial tr crs H1 H2) as [A B].
-  split; intros l H; unfold invalid_project in H; apply andb_true_iff in H; destruct H as [_ N];
-    (assert (l <> []) as NE by (destruct l; [discriminate|discriminate])); [rewrite (A l NE)|rewrite (B l NE)]; reflexivity.
+  unfold change_ext_api, invalid_change_ext, zoom_bad. rewrite some_bad_forallb, <- parse_all_forallb.
+  destruct (check_zoom H); [|reflexivity]. destruct (check_zoom V); [|reflexivity]. cbn [andb negb orb].
+  destruct (parse_all ids); reflexivity.
 Qed.
+Theorem change_ext_rejects ids H V : invalid_change_ext ids H V = true -> change_ext_api ids H V = Err.
+Proof. apply flag_rejects, change_ext_flag. Qed.
+(* the notation change refuses a member without four fields; such a member is not a well-formed spatial ID either *)
+Lemma arity_fails_wf4 sids : map_opt sid_to_eid_str sids = None -> forallb wf4 sids = false.
+Proof.
+  intros E. destruct (forallb wf4 sids) eqn:W; [|reflexivity]. apply forallb_wf4_ar4 in W.
+  pose proof (map_opt_forallb sid_to_eid_str sids) as M. rewrite E in M. cbn [is_some] in M.
+  rewrite (forallb_ext' _ ar4) in M by apply ar4_sid_to_eid. congruence.
+Qed.
+Theorem change_sid_flag sids z : is_ok (change_sid_api sids z) = negb (invalid_change_sid sids z).
+Proof.
+  unfold change_sid_api, sids_to_eids, invalid_change_sid. rewrite some_bad_forallb.
+  destruct (map_opt sid_to_eid_str sids) as [es|] eqn:E.
+  - pose proof (change_ext_flag es z z) as F. unfold invalid_change_ext in F. rewrite some_bad_forallb, (sids_forallb _ _ E) in F.
+    destruct (change_ext_api es z z); cbn [is_ok] in *; rewrite F; destruct (zoom_bad z); reflexivity.
+  - rewrite (arity_fails_wf4 sids E). cbn. now rewrite orb_true_r.
+Qed.
+Theorem change_sid_rejects sids z : invalid_change_sid sids z = true -> change_sid_api sids z = Err.
+Proof. apply flag_rejects, change_sid_flag. Qed.
+
+(* ---- MergeExtendedSpatialIds / MergeSpatialIds; models Merge.merge_ext_api / merge_sid_api (C04) ---- *)
+Theorem merge_ext_flag ids H V : is_ok (merge_ext_api ids H V) = negb (invalid_change_ext ids H V).
+Proof.
+  unfold merge_ext_api, invalid_change_ext, zoom_bad. rewrite some_bad_forallb, <- parse_all_forallb.
+  destruct (check_zoom H); [|reflexivity]. destruct (check_zoom V); [|reflexivity]. cbn [andb negb orb].
+  destruct (parse_all ids); reflexivity.
+Qed.
+Theorem merge_ext_rejects ids H V : invalid_change_ext ids H V = true -> merge_ext_api ids H V = Err.
+Proof. apply flag_rejects, merge_ext_flag. Qed.
+Theorem merge_sid_flag sids z : is_ok (merge_sid_api sids z) = negb (invalid_change_sid sids z).
+Proof.
+  unfold merge_sid_api, sids_to_eids, invalid_change_sid. rewrite some_bad_forallb.
+  destruct (map_opt sid_to_eid_str sids) as [es|] eqn:E.
+  - pose proof (merge_ext_flag es z z) as F. unfold invalid_change_ext in F. rewrite some_bad_forallb, (sids_forallb _ _ E) in F.
+    destruct (merge_ext_api es z z) as [r|]; cbn [is_ok] in *.
+    + destruct (eids_to_sids r); cbn [is_ok]; rewrite F; destruct (zoom_bad z); reflexivity.
+    + rewrite F; destruct (zoom_bad z); reflexivity.
+  - rewrite (arity_fails_wf4 sids E). cbn. now rewrite orb_true_r.
+Qed.
+Theorem merge_sid_rejects sids z : invalid_change_sid sids z = true -> merge_sid_api sids z = Err.
+Proof. apply flag_rejects, merge_sid_flag. Qed.
+
+(* ===================================================================================================================== *)
+(* 4. operated                                                                                                            *)
+(* ===================================================================================================================== *)
+(* ---- GetShiftingSpatialID (no error result: "" on a malformed ID); model Shift.shift_api (C07) ---- *)
+Definition invalid_shift (s : string) : bool := negb (wf5 s).
+Theorem shift_rejects s dx dy dv : invalid_shift s = true -> shift_api s dx dy dv = EmptyString.
+Proof. unfold invalid_shift. rewrite negb_true_iff, wf5_false. apply shift_api_malformed. Qed.
+Lemma app_slash_nonempty a r : (a ++ String slash r)%string <> EmptyString.
+Proof. destruct a; discriminate. Qed.
+(* a well-formed ID never gives the empty string: "" means "refused" and nothing else *)
+Theorem shift_accepts s dx dy dv : invalid_shift s = false -> shift_api s dx dy dv <> EmptyString.
+Proof.
+  unfold invalid_shift, wf5, shift_api. destruct (parse_eid s) as [i|]; [|discriminate]. intros _.
+  unfold print_eid. cbn [join]. apply app_slash_nonempty.
+Qed.
+(* ---- Get6spatialIdsAdjacentToFaces / Get8spatialIdsAroundHorizontal / Get26spatialIdsAroundVoxel: 6 / 8 / 26 empty IDs ---- *)
+Theorem n6_rejects s : invalid_shift s = true -> n6_api s = repeat EmptyString 6.
+Proof. unfold invalid_shift. rewrite negb_true_iff, wf5_false. apply n6_malformed. Qed.
+Theorem n8_rejects s : invalid_shift s = true -> n8_api s = repeat EmptyString 8.
+Proof. unfold invalid_shift. rewrite negb_true_iff, wf5_false. apply n8_malformed. Qed.
+Theorem n26_rejects s : invalid_shift s = true -> n26_api s = repeat EmptyString 26.
+Proof. unfold invalid_shift. rewrite negb_true_iff, wf5_false. apply n26_malformed. Qed.
+(* ---- GetNspatialIdsAroundVoxcels; model Neighbour.nN_api (C08) ---- *)
+Definition invalid_nN (ids : list string) (H V : Z) : bool := (H <? 0) || (V <? 0) || some_bad wf5 ids.
+Theorem nN_flag ids H V : is_ok (nN_api ids H V) = negb (invalid_nN ids H V).
+Proof.
+  unfold nN_api, invalid_nN. rewrite some_bad_forallb. destruct ((H <? 0) || (V <? 0)); [reflexivity|]. cbn [orb].
+  rewrite (forallb_ext' well_formed wf5) by reflexivity. destruct (forallb wf5 ids); reflexivity.
+Qed.
+Theorem nN_rejects ids H V : invalid_nN ids H V = true -> nN_api ids H V = Err.
+Proof. apply flag_rejects, nN_flag. Qed.
+
+(* ===================================================================================================================== *)
+(* 5. detector                                                                                                            *)
+(* ===================================================================================================================== *)
+(* ---- CheckExtendedSpatialIdsOverlap / CheckSpatialIdsOverlap; models Overlap.ext_overlap / sp_overlap (C05) ---- *)
+Definition invalid_ext_overlap (a b : string) : bool := negb (wf5 a) || negb (wf5 b).
+Definition invalid_sp_overlap (a b : string) : bool := negb (wf4 a) || negb (wf4 b).
+Theorem ext_overlap_rejects a b : invalid_ext_overlap a b = true -> ext_overlap a b = Err.
+Proof.
+  unfold invalid_ext_overlap. rewrite orb_true_iff, !negb_true_iff, !wf5_false. apply ext_overlap_malformed.
+Qed.
+Theorem sp_overlap_rejects a b : invalid_sp_overlap a b = true -> sp_overlap a b = Err.
+Proof.
+  unfold invalid_sp_overlap. rewrite orb_true_iff, !negb_true_iff, !wf4_false. apply sp_overlap_malformed.
+Qed.
+(* ---- CheckExtendedSpatialIdsArrayOverlap / CheckSpatialIdsArrayOverlap; models Overlap.ext_array / sp_array (C05).
+        The functions stop at the first overlapping pair, and the extended form examines nothing when one of the lists is empty; the
+        property asks for an error only from an operation that INTERPRETS the malformed field, and the documentation promises
+        false for an empty list. So an error is demanded exactly when the malformed member must have been interpreted whatever
+        the evaluation order: some member is malformed, both lists are non-empty, and no pair of members is an overlapping pair
+        (the answer "false" can only be given after examining every member). In all other cases either outcome is accepted by the
+        property; the faithful model is still compared (a change of the validation order is a correspondence failure). ---- *)
+Definition pair_hit (ov : string -> string -> result bool) (l1 l2 : list string) : bool :=
+  existsb (fun a => existsb (fun b => match ov a b with Ok true => true | _ => false end) l2) l1.
+Definition invalid_ext_array (l1 l2 : list string) : bool :=
+  (some_bad wf5 l1 || some_bad wf5 l2) && nonemptyb l1 && nonemptyb l2 && negb (pair_hit ext_overlap l1 l2).
+Definition invalid_sp_array (l1 l2 : list string) : bool :=
+  (some_bad wf4 l1 || some_bad wf4 l2) && nonemptyb l1 && nonemptyb l2 && negb (pair_hit sp_overlap l1 l2).
+Lemma pair_hit_intro (ov : string -> string -> result bool) l1 l2 a b :
+  In a l1 -> In b l2 -> ov a b = Ok true -> pair_hit ov l1 l2 = true.
+Proof.
+  intros Ha Hb E. unfold pair_hit. apply existsb_exists. exists a. split; [exact Ha|].
+  apply existsb_exists. exists b. split; [exact Hb|]. now rewrite E.
+Qed.
+
+Lemma ext_inner_false a l2 : ext_inner a l2 = Ok false -> forall b, In b l2 -> ext_overlap a b = Ok false.
+Proof.
+  induction l2 as [|c r IH]; cbn [ext_inner]; intros H b Hb; [contradiction|].
+  destruct (ext_overlap a c) as [[|]|] eqn:E; try discriminate. destruct Hb as [<-|Hb]; [exact E|now apply IH].
+Qed.
+Lemma ext_array_false l1 l2 : ext_array l1 l2 = Ok false -> forall a, In a l1 -> ext_inner a l2 = Ok false.
+Proof.
+  induction l1 as [|c r IH]; cbn [ext_array]; intros H a Ha; [contradiction|].
+  destruct (ext_inner c l2) as [[|]|] eqn:E; try discriminate. destruct Ha as [<-|Ha]; [exact E|now apply IH].
+Qed.
+Lemma ext_inner_true a l2 : ext_inner a l2 = Ok true -> exists b, In b l2 /\ ext_overlap a b = Ok true.
+Proof.
+  induction l2 as [|c r IH]; cbn [ext_inner]; intros H; [discriminate|].
+  destruct (ext_overlap a c) as [[|]|] eqn:E; try discriminate.
+  - exists c. split; [now left|exact E].
+  - destruct (IH H) as (b & Hb & Eb). exists b. split; [now right|exact Eb].
+Qed.
+Lemma ext_array_true l1 l2 : ext_array l1 l2 = Ok true -> exists a b, In a l1 /\ In b l2 /\ ext_overlap a b = Ok true.
+Proof.
+  induction l1 as [|c r IH]; cbn [ext_array]; intros H; [discriminate|].
+  destruct (ext_inner c l2) as [[|]|] eqn:E; try discriminate.
+  - destruct (ext_inner_true c l2 E) as (b & Hb & Eb). exists c, b. repeat split; [now left|exact Hb|exact Eb].
+  - destruct (IH H) as (a & b & Ha & Hb & Eb). exists a, b. repeat split; [now right|exact Hb|exact Eb].
+Qed.
+Lemma ext_overlap_ok_wf a b r : ext_overlap a b = Ok r -> wf5 a = true /\ wf5 b = true.
+Proof.
+  intros H. destruct (wf5 a) eqn:A, (wf5 b) eqn:B; auto; exfalso;
+    rewrite (ext_overlap_rejects a b) in H by (unfold invalid_ext_overlap; rewrite A, B; reflexivity); discriminate.
+Qed.
+(* the answer "no overlap" for two non-empty lists is given only after every member has been validated *)
+Lemma ext_array_false_all_wf l1 l2 : l1 <> [] -> l2 <> [] -> ext_array l1 l2 = Ok false ->
+  some_bad wf5 l1 || some_bad wf5 l2 = false.
+Proof.
+  intros N1 N2 H. rewrite !some_bad_forallb.
+  assert (P : forall a b, In a l1 -> In b l2 -> wf5 a = true /\ wf5 b = true).
+  { intros a b Ha Hb. apply (ext_overlap_ok_wf a b false). apply (ext_inner_false a l2); [|exact Hb]. now apply (ext_array_false l1 l2). }
+  destruct l1 as [|a1 r1]; [congruence|]. destruct l2 as [|b1 r2]; [congruence|].
+  assert (F1 : forallb wf5 (a1 :: r1) = true) by (apply forallb_forall; intros a Ha; apply (P a b1 Ha (or_introl eq_refl))).
+  assert (F2 : forallb wf5 (b1 :: r2) = true) by (apply forallb_forall; intros b Hb; apply (P a1 b (or_introl eq_refl) Hb)).
+  now rewrite F1, F2.
+Qed.
+Lemma nonemptyb_true {A} (l : list A) : nonemptyb l = true -> l <> [].
+Proof. destruct l; [discriminate|discriminate]. Qed.
+Theorem ext_array_rejects l1 l2 : invalid_ext_array l1 l2 = true -> ext_array l1 l2 = Err.
+Proof.
+  unfold invalid_ext_array. rewrite !andb_true_iff, negb_true_iff. intros (((B & N1) & N2) & Hh).
+  apply nonemptyb_true in N1, N2. destruct (ext_array l1 l2) as [[|]|] eqn:E; [| |reflexivity]; exfalso.
+  - destruct (ext_array_true l1 l2 E) as (a & b & Ha & Hb & Eb). rewrite (pair_hit_intro ext_overlap l1 l2 a b Ha Hb Eb) in Hh. discriminate.
+  - rewrite (ext_array_false_all_wf l1 l2 N1 N2 E) in B. discriminate.
+Qed.
+(* what is NOT demanded (accepted either way by the property, compared with the model all the same) *)
+Example ext_array_not_demanded :
+  ext_array ["x"%string] [] = Ok false /\ invalid_ext_array ["x"%string] [] = false /\
+  ext_array ["1/0/0/1/0"%string] ["1/0/0/1/0"%string; "x"%string] = Ok true /\
+  invalid_ext_array ["1/0/0/1/0"%string] ["1/0/0/1/0"%string; "x"%string] = false /\
+  invalid_ext_array ["1/0/0/1/0"%string] ["1/1/0/1/0"%string; "x"%string] = true.
+Proof. repeat split; vm_compute; reflexivity. Qed.
+
+Lemma sp_insert_ok_wf l1 : forall t t', sp_insert l1 t = Ok t' -> forallb wf4 l1 = true.
+Proof.
+  induction l1 as [|s r IH]; cbn [sp_insert forallb]; intros t t' H; [reflexivity|]. unfold wf4 at 1.
+  destruct (ChangeZoom.parse_sid s) as [i|]; [|discriminate]. destruct (fkey (ef i) (eh i)); [|discriminate]. cbn. eapply IH, H.
+Qed.
+Lemma sp_query_false_wf e t l2 : sp_query e t l2 = Ok false -> forallb wf4 l2 = true.
+Proof.
+  induction l2 as [|s r IH]; cbn [sp_query forallb]; intros H; [reflexivity|]. unfold wf4 at 1.
+  destruct (ChangeZoom.parse_sid s) as [i|]; [|discriminate]. destruct (fkey (ef i) (eh i)); [|discriminate]. cbn.
+  destruct e; [now apply IH|]. destruct (Radix.rsearch _ t); [discriminate|now apply IH].
+Qed.
+(* the first list is always validated completely; the second one up to the first hit *)
+Theorem sp_array_first_list l1 l2 r : sp_array l1 l2 = Ok r -> some_bad wf4 l1 = false.
+Proof.
+  unfold sp_array. destruct (sp_insert l1 Radix.rempty) as [t|] eqn:E; [|discriminate]. intros _.
+  rewrite some_bad_forallb, (sp_insert_ok_wf l1 _ _ E). reflexivity.
+Qed.
+Lemma sp_array_false_all_wf l1 l2 : sp_array l1 l2 = Ok false -> some_bad wf4 l1 || some_bad wf4 l2 = false.
+Proof.
+  intros H. rewrite (sp_array_first_list l1 l2 false H). cbn [orb].
+  unfold sp_array in H. destruct (sp_insert l1 Radix.rempty) as [t|]; [|discriminate].
+  rewrite some_bad_forallb, (sp_query_false_wf _ _ _ H). reflexivity.
+Qed.
+(* the keys stored by the first loop are the keys of members of the first list *)
+Definition key_of (a : string) (q : list Z) : Prop :=
+  exists i f', ChangeZoom.parse_sid a = Some i /\ fkey (ef i) (eh i) = Ok f' /\ q = skey (eh i) f' (ex i) (ey i).
+Lemma sp_insert_stored l1 : forall t t', Radix.twf t -> sp_insert l1 t = Ok t' ->
+  Radix.twf t' /\ forall q, Radix.stored t' q -> Radix.stored t q \/ exists a, In a l1 /\ key_of a q.
+Proof.
+  induction l1 as [|s r IH]; cbn [sp_insert]; intros t t' W H.
+  - injection H as <-. split; [exact W|]. intros q Hq. now left.
+  - destruct (ChangeZoom.parse_sid s) as [i|] eqn:P; [|discriminate]. destruct (fkey (ef i) (eh i)) as [f'|] eqn:F; [|discriminate].
+    destruct (IH _ _ (Radix.twf_append _ t W) H) as [W' S]. split; [exact W'|]. intros q Hq.
+    destruct (S q Hq) as [Hs|(a & Ha & Ka)].
+    + apply Radix.stored_append in Hs. destruct Hs as [->|Hs]; [|now left]. right. exists s. split; [now left|].
+      exists i, f'. repeat split; assumption.
+    + right. exists a. split; [now right|exact Ka].
+Qed.
+Lemma sp_query_true t l2 : sp_query false t l2 = Ok true ->
+  exists b q, In b l2 /\ key_of b q /\ Radix.rsearch q t = true.
+Proof.
+  induction l2 as [|s r IH]; cbn [sp_query]; intros H; [discriminate|].
+  destruct (ChangeZoom.parse_sid s) as [i|] eqn:P; [|discriminate]. destruct (fkey (ef i) (eh i)) as [f'|] eqn:F; [|discriminate].
+  destruct (Radix.rsearch (skey (eh i) f' (ex i) (ey i)) t) eqn:R.
+  - exists s, (skey (eh i) f' (ex i) (ey i)). repeat split; [now left| |exact R]. exists i, f'. repeat split; assumption.
+  - destruct (IH H) as (b & q & Hb & Kb & Rb). exists b, q. repeat split; [now right|exact Kb|exact Rb].
+Qed.
+Lemma sp_query_empty1 t l2 r : sp_query true t l2 = Ok r -> r = false.
+Proof.
+  induction l2 as [|s l IH]; cbn [sp_query]; intros H; [now injection H as <-|].
+  destruct (ChangeZoom.parse_sid s) as [i|]; [|discriminate]. destruct (fkey (ef i) (eh i)); [|discriminate]. now apply IH.
+Qed.
+Lemma sp_pair_hit a b ka kb : key_of a ka -> key_of b kb -> (Radix.prefix ka kb \/ Radix.prefix kb ka) -> sp_overlap a b = Ok true.
+Proof.
+  intros (i & f1 & Pa & Fa & ->) (j & f2 & Pb & Fb & ->) Hp. unfold sp_overlap, sp_array. cbn [sp_insert sp_query].
+  rewrite Pa, Fa, Pb, Fb.
+  assert (R : Radix.rsearch (skey (eh j) f2 (ex j) (ey j)) (Radix.rappend (skey (eh i) f1 (ex i) (ey i)) Radix.rempty) = true).
+  { apply (Radix.search_spec _ _ (Radix.twf_append _ _ Radix.twf_rempty)). exists (skey (eh i) f1 (ex i) (ey i)).
+    split; [apply Radix.stored_append; now left|exact Hp]. }
+  now rewrite R.
+Qed.
+Lemma sp_array_true l1 l2 : sp_array l1 l2 = Ok true -> exists a b, In a l1 /\ In b l2 /\ sp_overlap a b = Ok true.
+Proof.
+  unfold sp_array. destruct (sp_insert l1 Radix.rempty) as [t|] eqn:E; [|discriminate]. intros H.
+  destruct (sp_insert_stored l1 _ _ Radix.twf_rempty E) as [W S].
+  destruct l1 as [|a0 r0]; [apply sp_query_empty1 in H; discriminate|].
+  destruct (sp_query_true t l2 H) as (b & q & Hb & Kb & R).
+  apply (Radix.search_spec q t W) in R. destruct R as (k & Hk & Hp).
+  destruct (S k Hk) as [Hs|(a & Ha & Ka)]; [now apply Radix.stored_rempty in Hs|].
+  exists a, b. repeat split; [exact Ha|exact Hb|]. eapply sp_pair_hit; eauto.
+Qed.
+Theorem sp_array_rejects l1 l2 : invalid_sp_array l1 l2 = true -> sp_array l1 l2 = Err.
+Proof.
+  unfold invalid_sp_array. rewrite !andb_true_iff, negb_true_iff. intros (((B & N1) & N2) & Hh).
+  destruct (sp_array l1 l2) as [[|]|] eqn:E; [| |reflexivity]; exfalso.
+  - destruct (sp_array_true l1 l2 E) as (a & b & Ha & Hb & Eb). rewrite (pair_hit_intro sp_overlap l1 l2 a b Ha Hb Eb) in Hh. discriminate.
+  - rewrite (sp_array_false_all_wf l1 l2 E) in B. discriminate.
+Qed.
+Example sp_array_not_demanded :
+  sp_array ["3/0/0/0"%string] ["3/0/0/0"%string; "x"%string] = Ok true /\
+  invalid_sp_array ["3/0/0/0"%string] ["3/0/0/0"%string; "x"%string] = false /\
+  invalid_sp_array ["3/0/0/0"%string] ["3/0/1/0"%string; "x"%string] = true /\
+  sp_array ["3/0/0/0"%string] ["3/0/1/0"%string; "x"%string] = Err.
+Proof. repeat split; vm_compute; reflexivity. Qed.
+
+(* ===================================================================================================================== *)
+(* 6. transform                                                                                                           *)
+(* ===================================================================================================================== *)
+(* ---- the ID -> key conversions; models QuadkeyConv.e2q / s2q / e2qa (C11, C12) -------------------------------------------
+        ConvertExtendedSpatialIDsToQuadkeysAndVerticalIDs(ids, oh, ov, maxHeight, minHeight)     index = (maxHeight == minHeight);
+        ConvertSpatialIDsToQuadkeysAndVerticalIDs; ConvertExtendedSpatialIDsToQuadkeysAndAltitudekeys(ids, oq, oa, E, O).
+        Documented: output quadkey zoom 1..31, output vertical zoom 0..35, five (four) integer fields, maxHeight >= minHeight
+        (the bit form maxHeight > minHeight belongs to C17 and is not generated here). ---- *)
+Definition id_ok (vert : Z -> Z -> result (list Z)) (s : string) : bool :=
+  match parse_eid s with
+  | None => false
+  | Some i => echeck (eh i) (ev i) && is_ok (vert (ev i) (ef i))
+  end.
+Lemma id_pairs_ok oh vert s : is_ok (id_pairs oh vert s) = id_ok vert s.
+Proof.
+  unfold id_pairs, id_ok. destruct (parse_eid s) as [i|]; [|reflexivity].
+  destruct (echeck (eh i) (ev i)); [|reflexivity]. cbn [negb andb]. destruct (vert (ev i) (ef i)); reflexivity.
+Qed.
+Lemma conv_loop_ok {P} oh ov (par : P) vert ids : forall seen,
+  is_ok (conv_loop oh ov par vert seen ids) = forallb (id_ok vert) ids.
+Proof.
+  induction ids as [|s r IH]; intros seen; cbn [conv_loop forallb]; [reflexivity|].
+  rewrite <- (id_pairs_ok oh vert s). destruct (id_pairs oh vert s) as [ps|]; [|reflexivity]. cbn [is_ok andb].
+  destruct (fresh seen ps) as [seen' k]. rewrite <- (IH seen'). destruct (conv_loop oh ov par vert seen' r); reflexivity.
+Qed.
+Theorem conv_flag {P} oh ov (par : P) vert ids : is_ok (conv oh ov par vert ids) = qcheck oh ov && forallb (id_ok vert) ids.
+Proof. unfold conv. destruct (qcheck oh ov); [apply conv_loop_ok|reflexivity]. Qed.
+
+Definition invalid_e2q (index : bool) (ids : list string) (oh ov : Z) : bool :=
+  negb (qcheck oh ov) || some_bad wf5 ids || (negb index && nonemptyb ids).
+Definition invalid_s2q (index : bool) (sids : list string) (oh ov : Z) : bool :=
+  negb (qcheck oh ov) || some_bad wf4 sids || (negb index && nonemptyb sids).
+Definition invalid_e2qa (ids : list string) (oq oa : Z) : bool := negb (qcheck oq oa) || some_bad wf5 ids.
+(* error flags of the models (zoom fields of parseable members may still be out of range; altitude conversion may refuse) *)
+Definition err_e2q (index : bool) (ids : list string) (oh ov : Z) : bool :=
+  negb (qcheck oh ov && forallb (id_ok (if index then vert_index ov else vert_bad)) ids).
+Definition err_e2qa (ids : list string) (oq oa E O : Z) : bool :=
+  negb (qcheck oq oa && forallb (id_ok (vert_alt oa E O)) ids).
+Theorem e2q_flag {P} (par : P) index ids oh ov : is_ok (e2q par index ids oh ov) = negb (err_e2q index ids oh ov).
+Proof. unfold e2q, err_e2q. now rewrite conv_flag, negb_involutive. Qed.
+Theorem e2qa_flag ids oq oa E O : is_ok (e2qa ids oq oa E O) = negb (err_e2qa ids oq oa E O).
+Proof. unfold e2qa, err_e2qa. now rewrite conv_flag, negb_involutive. Qed.
+Lemma id_ok_wf5 vert s : id_ok vert s = true -> wf5 s = true.
+Proof. unfold id_ok, wf5. destruct (parse_eid s); [reflexivity|discriminate]. Qed.
+Lemma forallb_id_ok_wf5 vert ids : forallb (id_ok vert) ids = true -> forallb wf5 ids = true.
+Proof. rewrite !forallb_forall. intros H s Hs. eapply id_ok_wf5, H, Hs. Qed.
+Lemma id_ok_bad s : id_ok vert_bad s = false.
+Proof. unfold id_ok, vert_bad. destruct (parse_eid s); [now rewrite andb_false_r|reflexivity]. Qed.
+Theorem e2q_invalid_err index ids oh ov : invalid_e2q index ids oh ov = true -> err_e2q index ids oh ov = true.
+Proof.
+  unfold invalid_e2q, err_e2q. intros H. destruct (qcheck oh ov); [|reflexivity]. cbn [negb orb andb] in *.
+  apply negb_true_iff. destruct (forallb (id_ok (if index then vert_index ov else vert_bad)) ids) eqn:F; [|reflexivity].
+  rewrite some_bad_forallb, (forallb_id_ok_wf5 _ _ F) in H. cbn [negb orb] in H. destruct index; [discriminate|].
+  destruct ids as [|s r]; [discriminate|]. cbn [forallb] in F. now rewrite id_ok_bad in F.
+Qed.
+Theorem e2q_rejects {P} (par : P) index ids oh ov : invalid_e2q index ids oh ov = true -> e2q par index ids oh ov = Err.
+Proof. intros H. apply (flag_rejects _ _ (e2q_flag par index ids oh ov)), e2q_invalid_err, H. Qed.
+Theorem e2qa_rejects ids oq oa E O : invalid_e2qa ids oq oa = true -> e2qa ids oq oa E O = Err.
+Proof.
+  intros H. apply (flag_rejects _ _ (e2qa_flag ids oq oa E O)). unfold invalid_e2qa in H. unfold err_e2qa.
+  destruct (qcheck oq oa); [|reflexivity]. cbn [negb orb andb] in *. apply negb_true_iff.
+  destruct (forallb (id_ok (vert_alt oa E O)) ids) eqn:F; [|reflexivity].
+  rewrite some_bad_forallb, (forallb_id_ok_wf5 _ _ F) in H. discriminate.
+Qed.
+Definition err_s2q (index : bool) (sids : list string) (oh ov : Z) : bool :=
+  match sids_to_eids sids with Err => true | Ok l => err_e2q index l oh ov end.
+Theorem s2q_flag {P} (par : P) index sids oh ov : is_ok (s2q par index sids oh ov) = negb (err_s2q index sids oh ov).
+Proof. unfold s2q, err_s2q. destruct (sids_to_eids sids); [apply e2q_flag|reflexivity]. Qed.
+Theorem s2q_rejects {P} (par : P) index sids oh ov : invalid_s2q index sids oh ov = true -> s2q par index sids oh ov = Err.
+Proof.
+  intros H. apply (flag_rejects _ _ (s2q_flag par index sids oh ov)). unfold err_s2q, sids_to_eids.
+  destruct (map_opt sid_to_eid_str sids) as [l|] eqn:E; [|reflexivity]. apply e2q_invalid_err.
+  unfold invalid_s2q in H. unfold invalid_e2q. rewrite !some_bad_forallb in *. rewrite (sids_forallb _ _ E).
+  assert (L : nonemptyb l = nonemptyb sids).
+  { pose proof (map_opt_length _ _ _ E) as Len. destruct l, sids; cbn in *; congruence. }
+  now rewrite L.
+Qed.
+
+(* ---- the key -> ID conversions; models QuadkeyConv.q2e / q2s (C11) ---------------------------------------------------------
+        ConvertQuadkeysAndVerticalIDsToExtendedSpatialIDs(items, oh, ov) / ...ToSpatialIDs(items, z). Documented: output zooms 0..35,
+        each item's quadkey zoom 1..31 and vertical zoom 0..35, maxHeight >= minHeight (qidx = (maxHeight == minHeight)). ---- *)
+Definition item_zoom_bad (it : qitem) : bool := negb (qcheck (qz it) (qvz it)).
+Definition invalid_q2e (items : list qitem) (oh ov : Z) : bool :=
+  negb (echeck oh ov) || existsb item_zoom_bad items || existsb (fun it => negb (qidx it)) items.
+Definition item_err (it : qitem) : bool := negb (qcheck (qz it) (qvz it)) || (quadkey_limit <? qk it) || negb (qidx it).
+Definition err_q2e (items : list qitem) (oh ov : Z) : bool := negb (echeck oh ov) || existsb item_err items.
+Lemma q2e_item_ok oh ov it : is_ok (q2e_item oh ov it) = negb (item_err it).
+Proof.
+  unfold q2e_item, item_err. destruct (qcheck (qz it) (qvz it)); [|reflexivity]. cbn [negb orb].
+  destruct (quadkey_limit <? qk it); [reflexivity|]. cbn [orb]. destruct (qidx it); reflexivity.
+Qed.
+Lemma q2e_loop_ok oh ov items : is_ok (q2e_loop oh ov items) = negb (existsb item_err items).
+Proof.
+  induction items as [|it r IH]; cbn [q2e_loop existsb]; [reflexivity|]. rewrite negb_orb, <- (q2e_item_ok oh ov it), <- IH.
+  destruct (q2e_item oh ov it); [|reflexivity]. destruct (q2e_loop oh ov r); reflexivity.
+Qed.
+Theorem q2e_flag items oh ov : is_ok (q2e items oh ov) = negb (err_q2e items oh ov).
+Proof.
+  unfold q2e, err_q2e. destruct (echeck oh ov); [|reflexivity]. cbn [negb orb]. rewrite <- (q2e_loop_ok oh ov).
+  destruct (q2e_loop oh ov items); reflexivity.
+Qed.
+Lemma existsb_impl {A} (f g : A -> bool) l : (forall a, f a = true -> g a = true) -> existsb f l = true -> existsb g l = true.
+Proof. intros H. rewrite !existsb_exists. intros (a & Ha & Hf). exists a. auto. Qed.
+Theorem q2e_invalid_err items oh ov : invalid_q2e items oh ov = true -> err_q2e items oh ov = true.
+Proof.
+  unfold invalid_q2e, err_q2e. destruct (echeck oh ov); [|reflexivity]. cbn [negb orb]. rewrite orb_true_iff. intros [H|H].
+  - revert H. apply existsb_impl. intros it E. unfold item_err, item_zoom_bad in *. now rewrite E.
+  - revert H. apply existsb_impl. intros it E. unfold item_err. rewrite E. now rewrite !orb_true_r.
+Qed.
+Theorem q2e_rejects items oh ov : invalid_q2e items oh ov = true -> q2e items oh ov = Err.
+Proof. intros H. apply (flag_rejects _ _ (q2e_flag items oh ov)), q2e_invalid_err, H. Qed.
+(* the spatial form: the same call with both output zooms equal, then a notation change that cannot fail on printed IDs *)
+Lemma ar5_print i : ar5 (print_eid i) = true.
+Proof. rewrite <- ar5_eid_to_sid, eid_to_sid_print. reflexivity. Qed.
+Lemma q2e_item_printed oh ov it l s : q2e_item oh ov it = Ok l -> In s l -> ar5 s = true.
+Proof.
+  unfold q2e_item. destruct (negb (qcheck (qz it) (qvz it))); [discriminate|]. destruct (quadkey_limit <? qk it); [discriminate|].
+  destruct (qidx it); [|discriminate]. intros [= <-] Hs. apply in_flat_map in Hs. destruct Hs as (hp & _ & Hs).
+  apply in_map_iff in Hs. destruct Hs as (f & <- & _). apply ar5_print.
+Qed.
+Lemma q2e_loop_printed oh ov items : forall l s, q2e_loop oh ov items = Ok l -> In s l -> ar5 s = true.
+Proof.
+  induction items as [|it r IH]; cbn [q2e_loop]; intros l s.
+  - intros [= <-] [].
+  - destruct (q2e_item oh ov it) as [a|] eqn:Ea; [|discriminate]. destruct (q2e_loop oh ov r) as [t|] eqn:Et; [|discriminate].
+    intros [= <-] Hs. apply in_app_or in Hs. destruct Hs as [Hs|Hs]; [eapply q2e_item_printed; eauto|eapply IH; eauto].
+Qed.
+Theorem q2s_flag items z : is_ok (q2s items z) = negb (err_q2e items z z).
+Proof.
+  rewrite <- q2e_flag. unfold q2s, q2e. destruct (negb (echeck z z)); [reflexivity|].
+  destruct (q2e_loop z z items) as [l|] eqn:E; [|reflexivity]. cbn [is_ok]. rewrite e2s_flag. apply negb_true_iff.
+  unfold invalid_e2s. rewrite some_bad_forallb. apply negb_false_iff, forallb_forall. intros s Hs.
+  unfold dedup_strings in Hs. apply (proj1 (nodupb_In String.eqb String.eqb_spec s l)) in Hs. eapply q2e_loop_printed; eauto.
+Qed.
+Theorem q2s_rejects items z : invalid_q2e items z z = true -> q2s items z = Err.
+Proof. intros H. apply (flag_rejects _ _ (q2s_flag items z)), q2e_invalid_err, H. Qed.
+
+(* ---- ConvertTileXYZsToExtendedSpatialIDs / ConvertTileXYZsToSpatialIDs(tiles, E, O, outV): validation prefix written here
+        (the model of C13 is not compiled yet): extendedSpatialIDCheckZoom(0, outV) before the loop (fix 322d7d5: an empty request
+        is checked too), then for each tile in order extendedSpatialIDCheckZoom(tile.hZoom, outV) and
+        ConvertAltitudekeyToMinMaxZ(tile.z, tile.vZoom, outV, E, O) (AltKeyCore.key2z); the first failure ends the call.
+        The spatial form adds ConvertExtendedSpatialIDToSpatialIDs, which cannot fail. Documented: outV in 0..35. ---- *)
+Definition tile_err (E O outV : Z) (t : tile) : bool :=
+  negb (echeck (th t) outV) || negb (is_ok (key2z (tz t) (tv t) outV E O)).
+Definition err_tiles (l : list tile) (E O outV : Z) : bool := negb (echeck 0 outV) || existsb (tile_err E O outV) l.
+Definition invalid_tiles (outV : Z) : bool := zoom_bad outV.
+Lemma echeck_bad_v h v : zoom_bad v = true -> echeck h v = false.
+Proof.
+  unfold zoom_bad, check_zoom, echeck. destruct (0 <=? h), (h <=? 35), (0 <=? v), (v <=? 35); cbn; congruence.
+Qed.
+Theorem tiles_rejects l E O outV : invalid_tiles outV = true -> err_tiles l E O outV = true.
+Proof. unfold invalid_tiles, err_tiles. intros H. now rewrite (echeck_bad_v 0 outV H). Qed.
+(* with a valid output zoom the tiles' own zooms cannot be the reason (a tile object has zooms 0..35): only the altitude conversion *)
+Theorem tiles_flag_valid_zoom l E O outV : zoom_bad outV = false -> forallb tile_ok l = true ->
+  err_tiles l E O outV = existsb (fun t => negb (is_ok (key2z (tz t) (tv t) outV E O))) l.
+Proof.
+  intros Hz Hl. unfold err_tiles.
+  assert (Z0 : forall h, check_zoom h = true -> echeck h outV = true).
+  { intros h Hh. unfold zoom_bad in Hz. apply negb_false_iff in Hz. unfold check_zoom, echeck in *.
+    apply andb_true_iff in Hh, Hz. destruct Hh as [A B], Hz as [C D]. now rewrite A, B, C, D. }
+  rewrite (Z0 0 eq_refl). cbn [negb orb]. induction l as [|t r IH]; [reflexivity|]. cbn [existsb forallb] in *.
+  apply andb_true_iff in Hl. destruct Hl as [Ht Hr]. rewrite (IH Hr). unfold tile_ok in Ht. unfold tile_err at 1.
+  apply andb_true_iff in Ht. now rewrite (Z0 (th t) (proj1 Ht)).
+Qed.
+
+(* ---- ConvertZToMinMaxAltitudekey(f, z, out, E, O) / ConvertAltitudekeyToMinMaxZ(k, kz, out, E, O); models AltKeyCore.z2key /
+        key2z (C12). The zoom arguments are not validated as such: the functions only ask whether the index exists at that zoom
+        (1 << zoom), so zooms 36..62 are served (finding class altkey_zoom_unchecked; beyond 63 the int64 shifts wrap, and the most
+        negative zoom panics with "negative shift amount": there the unbounded model is not the code). Proved: a negative input
+        zoom is always refused. ---- *)
+Definition invalid_altkey (z out : Z) : bool := zoom_bad z || zoom_bad out.
+Lemma ashift_1_neg z : z < 0 -> ashift 1 z = 0.
+Proof.
+  intros H. rewrite ashift_neg by lia. apply Z.div_small. split; [lia|]. apply Z.pow_gt_1; lia.
+Qed.
+Theorem z2key_negative_zoom f z out E O : z < 0 -> z2key f z out E O = Err.
+Proof.
+  intros H. unfold z2key, index_exists. rewrite (ashift_1_neg z H). cbn [Z.opp Z.sub].
+  destruct (0 - 1 <? f) eqn:A; [reflexivity|]. destruct (f <? 0) eqn:B; [reflexivity|]. exfalso.
+  apply Z.ltb_ge in A, B. lia.
+Qed.
+Theorem key2z_negative_zoom k kz out E O : kz < 0 -> key2z k kz out E O = Err.
+Proof.
+  intros H. unfold key2z. rewrite (ashift_1_neg kz H).
+  destruct (0 - 1 <? k) eqn:A; [reflexivity|]. destruct (k <? 0) eqn:B; [reflexivity|]. exfalso.
+  apply Z.ltb_ge in A, B. lia.
+Qed.
+Theorem altkey_zoom_unchecked_refuted :
+  invalid_altkey 36 3 = true /\ z2key 0 36 3 25 0 = Ok (0, 0) /\
+  invalid_altkey 3 36 = true /\ key2z 0 3 36 25 0 = Ok (0, 8589934591).
+Proof. repeat split; vm_compute; reflexivity. Qed.
+
+(* ---- FitClearanceAroundExtendedSpatialID(id, clearance); model Corridor.fit_model (C14: control flow; distances are oracles).
+        Documented: clearance >= 0; the ID has the form hZoom/x/y/vZoom/z. Whatever the clearance, 0 included, the ID is examined
+        in the first iteration before anything is compared. ---- *)
+Definition invalid_fit (id : string) (c : float) : bool := (c <? 0)%float || negb (vertex_ok id).
+Theorem fit_rejects fuel dx dy id c : invalid_fit id c = true -> fit_model (S fuel) dx dy id c = Some Err.
+Proof.
+  unfold invalid_fit. rewrite orb_true_iff, negb_true_iff. intros [H|H]; [now apply fit_negative|now apply fit_malformed].
+Qed.
+(* a valid ID with clearance 0 is served (the measured distances are not negative) *)
+Theorem fit_accepts_zero fuel dx dy i : valid i ->
+  (dx (print_eid i) 1%Z <? 0)%float = false -> (dy (print_eid i) 1%Z <? 0)%float = false ->
+  fit_model (S fuel) dx dy (print_eid i) 0%float = Some (Ok (0, 0)).
+Proof. apply fit_zero_clearance_valid. Qed.
+
+(* ---- GetExtendedSpatialIdsWithinRadiusOfLine(start, end, radius, hZoom, vZoom, skip); model Corridor.corridor over the line model
+        (C06) and the fit model. Documented: non-nil points, zooms 0..35, radius >= 0. ---- *)
+Definition invalid_corridor (has_nil : bool) (h v : Z) (r : float) : bool := invalid_points has_nil h v || (r <? 0)%float.
+Theorem corridor_rejects ord_n ord_u ord_q m_tan m_cos m_log fuel dx dy measure has_nil s e h v r skip :
+  invalid_corridor has_nil h v r = true ->
+  corridor ord_n ord_u ord_q (fit_of_model fuel dx dy r) measure (line_api m_tan m_cos m_log has_nil s e h v) skip = Err.
+Proof.
+  unfold invalid_corridor. rewrite orb_true_iff. intros [H|H].
+  - now rewrite (line_rejects m_tan m_cos m_log has_nil s e h v H).
+  - now apply corridor_negative_radius.
+Qed.
+
+(* ---- GetVoxelIDfromSpatialID(id) []int64 has no error result. After fix c5e2aa4 a string with fewer than five fields gives the
+        empty list (it used to panic with index out of range); with five or more fields it returns [x; y; f] read from fields
+        1, 2, 4, conversion errors discarded (Notation.voxel_id, C10). ---- *)
+Definition invalid_voxel (s : string) : bool := Nat.ltb (List.length (split s)) 5.
+Theorem voxel_rejects s : invalid_voxel s = true -> voxel_id s = [].
+Proof. unfold invalid_voxel. rewrite Nat.ltb_lt. apply voxel_id_empty. Qed.
+Theorem voxel_empty_only_if_short s : voxel_id s = [] -> invalid_voxel s = true.
+Proof. unfold invalid_voxel. rewrite Nat.ltb_lt. apply voxel_id_empty. Qed.
+Theorem voxel_accepts s i : parse_eid s = Some i -> voxel_id s = [ex i; ey i; ef i].
+Proof. apply voxel_id_spec. Qed.
